@@ -52,9 +52,19 @@ def run_state(idx, rep, rid):
     # (b) breadth-first: _prep_csvpath_results names the run; the reset must dominate that call
     fp = idx.method("CsvPaths", "_prep_csvpath_results")
     rep.analysed(fp)
-    m = Must(gen=K.call_pred("clear_run_coordination")).run(fp.node)
-    sites = K.find_stmts(fp.node, K.call_pred("run_time_str"))
-    rep.check(bool(sites) and all(m.in_state.get(s) or K.has_call(s, "clear_run_coordination") for s in sites), rid,
+    # interpreted (private helpers followed): on every path the first naming of the run is preceded by the reset
+    it0 = Interp(idx, types={"self": "CsvPaths"}, unknown_calls="residual",
+                 handlers={"self.clear_run_coordination": lambda i, c, r, a, k: i.record_call("reset"), "self.run_time_str": lambda i, c, r, a, k: (i.record_call("name"), "RUNDIR")[1],
+                           "Result": lambda i, c, r, a, k: Obj("res"), "ErrorHandler": lambda i, c, r, a, k: Obj("eh")})
+    okp = True
+    named = 0
+    for p in it0.run_all(fp, args={"csvpath_objects": [[Obj("cp0"), []], [Obj("cp1"), []]], "filename": "F", "pathsname": "P"}):
+        ev = [kk for k, kk, v in p.trace if k == "call" and kk in ("reset", "name")]
+        if "name" in ev:
+            named += 1
+            if "reset" not in ev[:ev.index("name")]:
+                okp = False
+    rep.check(okp and named > 0, rid,
               f"{fp.file}::CsvPaths._prep_csvpath_results resets before naming the run",
               "run_time_str() is reached without a preceding clear_run_coordination(): a reused instance (or one whose previous run aborted) would write into the earlier run's directory", K.where(fp, fp.node))
     fb = idx.method("CsvPaths", "next_by_line")
@@ -105,7 +115,7 @@ def run_state(idx, rep, rid):
     # (e) who writes the two cached attributes
     for s in K.attr_stores(idx, {"_current_run_time", "_run_time_str"}):
         fi = s["fi"]
-        okw = fi.qual in ("CsvPaths.__init__", "CsvPaths.clear_run_coordination", "CsvPaths.run_time_str", "CsvPaths.current_run_time")
+        okw = K.owner_of(idx, fi, {"CsvPaths.__init__", "CsvPaths.clear_run_coordination", "CsvPaths.run_time_str", "CsvPaths.current_run_time"}) is not None
         rep.check(okw, rid, f"{fi.file}::{fi.qual} writes {s['target'].attr}", f"`{unparse(s['stmt'])}`", K.where(fi, s["stmt"]))
 
 
@@ -216,21 +226,25 @@ def formats(idx):
     wf = _str_const(idx, fw, w[0].args[0])
     fr = idx.method("ResultsManager", "_find_in_dir_names")
     rfs = []
-    for n in ast.walk(fr.node):
-        if isinstance(n, ast.Call) and call_name(n) == "strptime":
-            a = n.args[1]
-            if isinstance(a, ast.IfExp):
-                rfs += [_str_const(idx, fr, a.body), _str_const(idx, fr, a.orelse)]
-            else:
-                rfs.append(_str_const(idx, fr, a))
+    # the reader's parse format(s): wherever in ResultsManager the directory names are parsed (the sort key may live in a helper)
+    for m in idx.cls("ResultsManager").methods.values():
+        for n in ast.walk(m.node):
+            if isinstance(n, ast.Call) and call_name(n) == "strptime" and len(n.args) >= 2:
+                a = n.args[1]
+                if isinstance(a, ast.IfExp):
+                    rfs += [_str_const(idx, m, a.body), _str_const(idx, m, a.orelse)]
+                else:
+                    rfs.append(_str_const(idx, m, a))
     return fw, wf, fr, rfs
 
 
 def r3(idx, rep):
     fw, wf, fr, rfs = formats(idx)
     rep.analysed(fw, fr)
-    if wf is None or any(r is None for r in rfs) or not rfs:
-        raise AnalysisError(f"cannot resolve the run-directory time formats (writer {wf!r}, readers {rfs})")
+    if wf is None:
+        raise AnalysisError(f"cannot resolve the run-directory writer format")
+    # reader formats that cannot be resolved statically (or a reader that parses in another way) are judged by the R5 behaviour table
+    rfs = [r for r in rfs if r is not None]
     toks = re.findall(r"%[a-zA-Z]", wf)
     order = ["%Y", "%m", "%d", "%H", "%M", "%S"]
     rep.check(toks == order, "R3", f"{fw.file}::run directory format fields",
@@ -243,7 +257,7 @@ def r3(idx, rep):
     rep.check(not re.search(r"%-|%#", wf), "R3", f"{fw.file}::run directory format padding", f"{wf!r} uses an unpadded directive", K.where(fw, fw.node))
     base = [r for r in rfs if not r.endswith(".%f")]
     frac = [r for r in rfs if r.endswith(".%f")]
-    rep.check(bool(base) and set(base) == {wf}, "R3", f"{fr.file}::reader base format equals writer format", f"writer {wf!r} vs reader {base}", K.where(fr, fr.node))
+    rep.check(set(base) <= {wf}, "R3", f"{fr.file}::reader base format equals writer format", f"writer {wf!r} vs reader {base}", K.where(fr, fr.node))
     # how the '.N' same-second suffix is ordered is decided by the R5 table; here only: a fractional reader format extends the writer's
     rep.check(all(r == wf + ".%f" for r in frac), "R3", f"{fr.file}::reader suffix format", f"reader formats for '.N' names: {frac}", K.where(fr, fr.node))
     # a sample of instants sorts the same by name and by time (decided on the format, not by running the repo)
